@@ -117,6 +117,38 @@ def judge_const(dims, subs):
     return None
 
 
+def judge_param_step(n, a, step, b):
+    """a slice whose step is a parameter expression (-k or k with k = 0): descending and zero steps reach the slice conversion"""
+    k = abs(step)
+    txt = "model M Real x[%d]; parameter Integer k = %d; Real z; equation z = sum(x[%d:%sk:%d]); end M;" % (n, k, a, "-" if step < 0 else "", b)
+    try:
+        m = gen(txt)
+        r = residual_bits(m, [n])
+        total = -float(np.sum(r)) if r.size else 0.0
+        t = int(round(total))
+        sel, i = [], 0
+        while t:
+            if t & 1:
+                sel.append(i + 1)
+            t >>= 1
+            i += 1
+        got = ("ok", sel)
+    except Exception as e:  # noqa
+        got = ("error", "%s: %s" % (type(e).__name__, str(e)[:100]))
+    if step == 0:
+        want = None
+    else:
+        I = list(range(a, b - 1, step)) if step < 0 else list(range(a, b + 1, step))
+        want = None if I and (min(I) < 1 or max(I) > n) else sorted(I)
+    if got[0] == "error":
+        return None          # rejecting a descending / zero-step slice loudly is always allowed
+    if want is None:
+        return {"class": "const", "input": txt, "observed": "no error; selected elements %s" % got[1], "expected": "an error (step 0 / range outside 1..n)"}
+    if got[1] != want:
+        return {"class": "const", "input": txt, "observed": "selected elements %s" % got[1], "expected": "elements %s (Modelica %d:%d:%d) or an error" % (want, a, step, b)}
+    return None
+
+
 def judge_loop(n, lo, hi, off):
     cnt = hi - lo + 1
     txt = ("model M Real x[%d]; Real w[%d]; equation for i in %d:%d loop w[i - %d + 1] = x[i + %d]; end for; end M;"
@@ -276,7 +308,7 @@ def main():
     for b in bad[:3]:
         failures.append({"class": "assumed-casadi-contract", "input": b, "observed": "CasADi behaves differently from the assumed contract", "expected": "see contracts/C23.py"})
     print(json.dumps({"performed": True, "cases": cases, "distinct_nontrivial": distinct, "failures": failures[:5],
-                      "rule": "window sweep through generate(): 1-D n in 1..3 with every int subscript and slice bound in [-2, n+2], steps 1,2(,3); "
+                      "rule": "window sweep through generate(): 1-D n in 1..3 with every int subscript and slice bound in [-2, n+2], steps 1,2(,3); slices whose step is a parameter expression with value -1, -2 or 0; "
                               "2-D 2x3 with int/slice/whole pairs; for-loops x[i+off] with lo,hi in a window; non-trivial = out-of-range or non-empty selections; "
                               "plus sampling of the assumed MX.__getitem__ contract",
                       "bound": "n <= 3 (1-D), 2x3 (2-D), window +-2"}))
@@ -295,6 +327,17 @@ def sweep(tier, limit_first=False):
                 failures.append(r)
                 if limit_first:
                     return failures, cases, distinct
+    for n in (1, 3):
+        for step in (-1, -2, 0):
+            for a in range(0, n + 3):
+                for b in range(-1, n + 2):
+                    cases += 1
+                    distinct += 1
+                    r = judge_param_step(n, a, step, b)
+                    if r:
+                        failures.append(r)
+                        if limit_first:
+                            return failures, cases, distinct
     dims = [2, 3]
     cand1 = [("int", i) for i in range(-1, 4)] + [("whole",), ("slice", 1, 2, 1), ("slice", 0, 1, 1), ("slice", 2, 3, 1), ("slice", 2, 1, 1)]
     cand2 = [("int", i) for i in range(-1, 5)] + [("whole",), ("slice", 1, 3, 1), ("slice", 0, 2, 1), ("slice", 2, 4, 1), ("slice", 1, 3, 2), ("slice", 3, 1, 1)]
